@@ -41,7 +41,9 @@ for p in props:
         prev.append(json.load(open(m))['needs_to_manifest'])
     if suffix and prev:
         taken = '\nALREADY TAKEN (another engineer has already produced a change for this property; yours must break a DIFFERENT clause or a different code path, not a variation of it): the earlier change(s) manifest with: ' + ' | '.join(prev) + '\n'
-    if suffix >= 'g':
+    if suffix >= 'h':
+        taken += ('\nNO REQUIRED FLAVOUR THIS ROUND. The engineers before you were asked for (in turn) concurrency/timing defects, boundary values and partial I/O failures, feature interactions, optimisations and error/clean-up paths, and parsing/normalisation mismatches; what they produced is listed above and is ALL detected by the project\'s verification harness today. Choose the kind of defect that YOU judge most likely to slip past a thorough harness that already catches all of those - think about which inputs, configurations, sequences, life-cycle moments (start-up, first/last request, reload, long uptime), protocol corners or code paths are least likely to be exercised - and break a clause or a code path that is not a variation of any listed item.\n')
+    elif suffix >= 'g':
         taken += ('\nFLAVOUR REQUIRED FOR THIS ROUND: the breakage must be a PARSING / NORMALISATION / REPRESENTATION defect. Either (1) two places that interpret the SAME datum now disagree (one normalises and the other does not: letter case, a trailing dot, IPv6 brackets or zone, a default versus explicit port, percent-encoding, leading zeros, surrounding or internal whitespace, repeated or comma-joined header lines, empty list elements, signed versus unsigned, seconds versus milliseconds, int32 versus int64, a nil versus an empty value); or (2) a parser, formatter or converter becomes slightly too lenient or too strict or loses information on an unusual BUT LEGAL spelling (a number with a sign or leading zeros or at the limit of its type, a quoted string, an escape, a very long or empty token, an uncommon separator, a value that only round-trips approximately). Ordinary, canonical spellings must behave exactly as before.\n')
     elif suffix >= 'f':
         taken += ('\nFLAVOUR REQUIRED FOR THIS ROUND: the breakage must come from a WELL-MEANT OPTIMISATION or from an ERROR / CLEAN-UP / RETRY PATH. Either (1) a cache, memo, fast path, early return, lazily built or pre-computed value, reused buffer or object, batching, or a skipped re-validation whose result differs from the ordinary (slow) path for SOME inputs or AFTER some earlier event - while the first operation on fresh state and typical inputs give exactly the old result; or (2) the handling of a failure, cancellation, time-out, retry, shutdown or early client departure that leaves something behind (a counter, a registration, a deadline, buffered bytes, a half-open connection, a flag) so that a LATER, perfectly ordinary operation on the same proxy / connection / object misbehaves. Runs in which nothing fails and nothing is reused must behave exactly as before.\n')
